@@ -552,6 +552,9 @@ def rules(ctx):
     r1d_no_other_cache(ctx)
     r1_writers(ctx)
     r13_only_settable_assigned(ctx)
+    from ._shared import named_parameters_form
+    named_parameters_form(ctx, "C01.R14", "a graph variable named by a parameter that is left out is not an ancestor of the derived variable - it is not invalidated when that variable is "
+                          "assigned, and is computed from the Python default instead of the current value")
     r2_invalidate(ctx)
     r3_read(ctx)
     r4_out_of_place(ctx)
